@@ -87,3 +87,12 @@ claim('C18', 'Coq theorem by induction over all construct classes (path extensio
       'is compared between the extracted model and the library on every truncation offset of generated nested shapes (names drawn from a small '
       'pool so that parent and child share names), on every leaf made unbuildable, on sizeof over unsized and key-less members; the oracle checks '
       'the path against the layout bookkeeping of the generator.', 'DESIGN.md 6/C18')
+claim('C16', 'Coq theorems (frame of parsing by induction over all construct classes; access histories as a state machine with a cache invariant; LazyArray against Array) + history correspondence + eager-equality oracles',
+      'parse_frame: every construct returns the stream it was given with at most another position; hence every deferred parse restores the stream '
+      'exactly (lazy_force_restores, lazy_access_restores). lazy_history_order_independent: for every lazy result and every access history - any '
+      'order, repetitions, length - each access returns what the first access on the fresh result returns and the position never moves (invariant '
+      'over the history: the offset table is constant, the cache only holds such values). lazyarray_matches_array: whenever the eager Array parses, '
+      'LazyArray ends on the same stream and every element is the eager element (element hypotheses proved for Int*/Float* and VarInt). Equality of '
+      'LazyStruct/Lazy with the eager Struct, rebuild and the enclosing parse are checked on the library: all histories with repetition up to k^k '
+      'for k<=4 (k<=6 thorough) by index/name/attribute, iteration, slicing, on canonical, offset, trailing and mutated inputs; each history also '
+      'runs on the extracted model (lazy_run). Five repaired defects (F6, F13, F17-F21).', 'DESIGN.md 6/C16')
